@@ -311,7 +311,8 @@ func (g *frameGen) frame(kind string, vpn bool) ([]byte, string) {
 			pl := []byte{0, 1, 3, 5, 16, 120, 124, 128, 255}[rng.Intn(9)]
 			return g.eth(0x0806, g.arpBody(1, 0x0800, 6, pl, rng.Intn(300))), "arp-plen"
 		case c == 7:
-			return g.eth(0x0806, g.arpBody(uint16(rng.Intn(40)), 0x0800, 6, 4, 20)), "arp-htype"
+			// incl. types whose low byte is 1: gopacket's ARP.AddrType keeps only that byte (D18)
+			return g.eth(0x0806, g.arpBody([]uint16{uint16(rng.Intn(40)), 0x0101, 0x8001, 0x0100, 0xff01}[rng.Intn(5)], 0x0800, 6, 4, 20)), "arp-htype"
 		case c == 8:
 			return g.eth(0x0806, g.arpBody(1, []uint16{0x86dd, 0x0806, 0, 0x0801}[rng.Intn(4)], 6, 4, 20)), "arp-ptype"
 		case c == 9:
